@@ -77,6 +77,14 @@ def _failed_payloads_summary(ctx):
                                     src_ok = True
                         if src_ok and (flag, False) in facts[n.id]:
                             good = True
+        # ... and for EVERY failed result: inside the result loop the statement depends on the flag alone
+        loops = [m for m in cf.nodes if m.kind == "for" and n.id in cf.reach([m.id], avoid=[t for t, lab in cf.succ[m.id] if lab == ("iter", False)])]
+        if loops:
+            lbody = cf.reach([loops[-1].id], avoid=[t for t, lab in cf.succ[loops[-1].id] if lab == ("iter", False)])
+            deps = sorted(norm(t.stmt.test) for t, lab in cf.control_deps_transitive(n.id, within=lbody) if t.kind == "test")
+            if len(deps) != 1:
+                good = False
+                details.append("recording depends on %s" % deps)
         details.append("%s guarded-by-not-success=%s" % (norm(c, 70), good))
         ok = ok and good
     return ok, details, f, raises[0]
